@@ -119,7 +119,14 @@ func cacheKey(req *http.Request) string {
 	// there is no support for the Vary header. So, all the request headers, which
 	// may have an influence on the response, are part of the key
 	headerNames := make([]string, 0, len(req.Header))
+
 	for name := range req.Header {
+		// HTTP message signatures are created anew for each request (creation time, nonce). They
+		// just authenticate the request built from all the other parts, which are part of the key
+		if name == "Signature" || name == "Signature-Input" {
+			continue
+		}
+
 		headerNames = append(headerNames, name)
 	}
 
